@@ -86,6 +86,19 @@ def get_attr(it, o, name):
                 if isinstance(f, FuncVal) and f.kind == "classmethod":
                     return BoundMethod(f, cls)
                 return _bind(it, f, inst)
+        if name == "__init__" and isinstance(inst, SObj):
+            astbase = next((c for c in mro[idx + 1:] if getattr(c, "is_ast", False)), None)
+            if astbase is not None:
+                # ast.AST.__init__: positional arguments fill _fields in order, keywords set attributes
+                def ast_init(*a, **k):
+                    fields, _ = inst.cls.lookup("_fields")      # type(self)._fields, as CPython does
+                    if len(a) > len(fields):
+                        it.throw("TypeError", f"{astbase.name} constructor takes at most {len(fields)} positional arguments")
+                    for n, v in zip(fields, a):
+                        inst.fields[n] = v
+                    for kk, v in k.items():
+                        inst.fields[kk] = v
+                return Builtin("ast.AST.__init__", ast_init)
         if name in ("__init__", "__post_init__", "__init_subclass__"):
             return Builtin(name, lambda *a, **k: None)
         if name in ("__setattr__",):
@@ -144,6 +157,18 @@ def get_attr(it, o, name):
     if isinstance(o, Builtin) and o.name in ("set", "frozenset") and name in ("union", "intersection"):
         from .symcoll import set_algebra
         return Builtin(f"set.{name}", lambda *a: set_algebra(it, name, list(a)))
+    if isinstance(o, Builtin) and o.name in ("set", "frozenset") and name in ("issubset", "issuperset", "isdisjoint"):
+        def setrel(a, b, name=name):
+            from .values import is_symbolic
+            def conc(x):
+                if isinstance(x, (set, frozenset, list, tuple)) or type(x).__name__ in ("dict_keys",):
+                    xs = list(x)
+                    if any(is_symbolic(v) or isinstance(v, SObj) for v in xs):
+                        raise Unsupported(f"set.{name} over symbolic / heap members")
+                    return set(xs)
+                raise Unsupported(f"set.{name} of {x!r}")
+            return getattr(conc(a), name)(conc(b))
+        return Builtin(f"set.{name}", setrel)
     if isinstance(o, SStr):
         return _sstr_method(it, o, name)
     if isinstance(o, SInt):
